@@ -173,12 +173,14 @@ def _dominating_length(f, b):
     return None
 
 
-def asm_limb_rule(prog, chk, rule, parts=("carry", "once", "extent"), floor=True):
+def asm_limb_rule(prog, chk, rule, parts=("carry", "once", "guard", "extent"), floor=True):
     """Limb structure of every inline-assembly block of sodium/utils.c (helpers included). Over the instructions with a memory
     destination `op src, K(base)` / `inc K(base)`:
       carry   a carry-ignoring operation (add / sub / inc / dec) may only be the first of them: a second one in the chain
               overwrites CF with the carry of a partial sum and drops the one the previous operation produced;
       once    no limb K(base) is the destination of two arithmetic operations of one block;
+      guard   a block with more than one limb operation is reached only under `len == C` (or the helper it lives in is only
+              called under one): the carry out of its last limb is not available to anything that would process further bytes;
       extent  when the block is only reached under `len == C`, the limb widths are contiguous from 0 and add up to exactly C
               (wider: bytes past the buffer are read and written; narrower: the top bytes never receive the carry)."""
     import re
@@ -220,6 +222,22 @@ def asm_limb_rule(prog, chk, rule, parts=("carry", "once", "extent"), floor=True
                        detail="" if not dup else "`%s` updates a limb that an earlier operation of the block already updated: the two "
                        "operations each produce their own carry and only the second one is propagated" % dup[0],
                        key="%s %s once@%d" % (rule, f.sname, ops[-1][1] + ops[-1][2]))
+            if "guard" in parts and len(ops) > 1:
+                # a chain of limb operations ends with a carry nobody reads: it is only complete when the block handles the whole
+                # operand, i.e. when it is reached under a length *equality* (directly, or at every call site of the helper it
+                # lives in). Under `len >= C` the bytes after the block would need the carry out of its last limb.
+                fact = _dominating_length(f, ins["b"])
+                via = ""
+                if fact is None and f.internal:
+                    sites = [(g, j) for g in prog.functions() if not g.decl and g.unit == f.unit
+                             for j, c_ in enumerate(g.insts) if c_["op"] == "call" and c_.get("callee") and c_["callee"][0] == "g"
+                             and c_["callee"][1] == f.name]
+                    if sites and all(_dominating_length(g, g.insts[j]["b"]) is not None for g, j in sites):
+                        fact, via = True, " (at all %d call sites of %s)" % (len(sites), f.sname)
+                chk.ob(rule, f, "assembly block at %s handles a whole operand: it is reached only under a length equality%s" % (f.loc(i), via),
+                       fact is not None, loc=f.loc(i), detail="" if fact is not None else "no `len == C` fact dominates the block: the carry / "
+                       "borrow out of its last limb is dropped, whatever processes the remaining bytes starts without it",
+                       key="%s %s guard@%d" % (rule, f.sname, ops[-1][1] + ops[-1][2]))
             if "extent" in parts:
                 fact = _dominating_length(f, ins["b"])
                 if fact is None:
